@@ -16,6 +16,9 @@ import (
 //   fail      every failure mode at every position of a three-plugin directory
 //   order     index order against name order, equal indices
 //   rand      random directories (≤ 8 entries, ≤ 4 launched probes, ≤ 1 that hangs)
+//   idle      a plugin that registered and synchronised and then, while the runtime is IDLE, closes its
+//             connection but keeps running / exits — followed by Stop directly, or with requests
+//             before / after; × position among healthy plugins
 //   excl      outside the domain: a drop-in "file" that is a directory
 
 var misnamed = []string{"README", "plugin", "1-ok", "123-ok", "ab-ok", "1a-ok", "10_ok", "-10-ok", " 10-ok", "10ok", "１０-ok", ".10-ok", "0-", "-"}
@@ -28,7 +31,7 @@ func generate(o *hx.Opts) []*dirIn {
 	var out []*dirIn
 	r := o.Rand(18)
 	add := func(stream string, es []entryIn, ds []dropinIn) *dirIn {
-		d := &dirIn{Kind: "dir", Stream: stream, Entries: es, Dropins: ds}
+		d := &dirIn{Kind: "dir", Stream: stream, Entries: es, Dropins: ds, Plan: []string{"r", "r"}}
 		if d.Entries == nil {
 			d.Entries = []entryIn{}
 		}
@@ -136,6 +139,29 @@ func generate(o *hx.Opts) []*dirIn {
 	add("fail", []entryIn{probe("10-die0", 0o755), probe("11-die1", 0o755), probe("20-ok2", 0o755), probe("30-cfgfail3", 0o755)}, nil)
 	add("fail", []entryIn{probe("10-exit0", 0o755), probe("20-exit1", 0o755), probe("30-exit2", 0o755)}, nil)
 
+	// ---- idle
+	idlePlans := [][]string{{"idle"}, {"idle", "r"}, {"r", "idle"}, {"r", "idle", "r"}, {"idle", "r", "r"}, {}}
+	for _, b := range []string{"idleclose", "idleexit"} {
+		for pi, pl := range idlePlans {
+			pos := pi % 3
+			var es []entryIn
+			for i := 0; i < 3; i++ {
+				if i == pos {
+					es = append(es, probe(fmt.Sprintf("%02d-%s%d", 10*(i+1), b, i), 0o755))
+				} else {
+					es = append(es, probe(fmt.Sprintf("%02d-ok%d", 10*(i+1), i), 0o755))
+				}
+			}
+			add("idle", es, nil).Plan = pl
+		}
+		add("idle", []entryIn{probe("10-"+b, 0o755)}, nil).Plan = []string{"idle"}
+	}
+	add("idle", []entryIn{probe("10-idleclose0", 0o755), probe("20-idleexit1", 0o755), probe("30-ok2", 0o755)}, nil).Plan = []string{"idle"}
+	add("idle", []entryIn{probe("10-idleexit0", 0o755), probe("20-die1", 0o755), probe("30-idleclose2", 0o755), probe("40-ok3", 0o755)}, nil).Plan = []string{"r", "idle"}
+	add("idle", []entryIn{probe("10-die0", 0o755), probe("20-ok1", 0o755)}, nil).Plan = []string{"r"}
+	add("idle", []entryIn{probe("10-die0", 0o755), probe("20-ok1", 0o755)}, nil).Plan = []string{}
+	add("idle", []entryIn{probe("10-exit0", 0o755), probe("20-idleclose1", 0o755), {Name: "30-oklink", Kind: "symlink", Target: "probe"}}, nil).Plan = []string{"idle"}
+
 	// ---- order
 	add("order", []entryIn{probe("90-okaaa", 0o755), probe("10-okzzz", 0o755), probe("50-okmmm", 0o755)}, nil)
 	add("order", []entryIn{probe("10-okb", 0o755), probe("10-oka", 0o755), probe("09-okc", 0o755)}, nil)
@@ -165,6 +191,7 @@ func generate(o *hx.Opts) []*dirIn {
 
 func randomDir(r *rand.Rand, stream string) *dirIn {
 	d := &dirIn{Kind: "dir", Stream: stream, Entries: []entryIn{}, Dropins: []dropinIn{}}
+	d.Plan = [][]string{{"r", "r"}, {"r", "r"}, {"r", "r"}, {"idle"}, {"idle"}, {"r"}, {}, {"idle", "r"}, {"r", "idle"}, {"r", "idle", "r"}}[r.Intn(10)]
 	used := map[string]bool{}
 	launched, hangs := 0, 0
 	n := 1 + r.Intn(8)
@@ -183,6 +210,10 @@ func randomDir(r *rand.Rand, stream string) *dirIn {
 			behave = "syncfail"
 		case x < 7 && hangs == 0:
 			behave = "hang"
+		case x < 9:
+			behave = "idleclose"
+		case x < 11:
+			behave = "idleexit"
 		}
 		name := fmt.Sprintf("%s-%s%c%d", idx, behave, 'a'+rune(r.Intn(3)), r.Intn(3))
 		e := entryIn{Name: name, Kind: "file", Mode: 0o755, Content: "probe"}
